@@ -30,6 +30,7 @@ package grpcutil
 //@ contract (*MultiClientConn).UpdateState
 //@   props C11
 //@   ensures @map_set: mcc.connMap == conns
+//@   assigns mcc.connMap
 //@   callpre deriveStateFromConns: @same_section: held(mcc.connMapLock) && mcc.connMap == conns
 //@   callpre UpdateState: @same_section: held(mcc.connMapLock) && mcc.connMap == conns
 
@@ -41,6 +42,11 @@ package grpcutil
 //@   callpre UpdateState: @keys: len(muxes) > 0 ==> $conns != nil && fresh($conns) &&
 //@        (forall k string :: { k in $conns } (k in $conns) <==> (k in muxes)) &&
 //@        (forall k string :: { $conns[k] } k in muxes ==> $conns[k] == muxes[k].Open)
+// ... and the update is APPLIED when the listener returns (the manager calls it under the session-table lock, so
+// updates are applied in the order of the table changes; an update applied later, from another goroutine, could
+// overtake its successor and leave a stale table in force)
+//@   ensures @applied_on_return: (len(muxes) == 0 ==> mcc.connMap == nil) &&
+//@        (len(muxes) > 0 ==> mcc.connMap != nil && (forall k string :: { k in mcc.connMap } (k in mcc.connMap) <==> (k in muxes)))
 //@   loop 1 invariant connMap != nil && fresh(connMap)
 //@   loop 1 invariant forall k string :: { k in connMap } (k in connMap) <==> (k in $seen)
 //@   loop 1 invariant forall k string :: { connMap[k] } k in $seen ==> connMap[k] == muxes[k].Open
